@@ -11,7 +11,7 @@ use std::alloc::Allocator;
 use std::collections::{HashMap, HashSet};
 use std::collections::hash_map::Iter;
 verus! {
-broadcast use {vstd::laws_eq::group_laws_eq, vstd::std_specs::hash::group_hash_axioms, trusted_keys::group_trusted_keys};
+broadcast use {vstd::laws_eq::group_laws_eq, vstd::std_specs::hash::group_hash_axioms, trusted_keys::group_trusted_keys, trusted_byvalue_iter::group_byvalue_iter};
 
 pub type Uid = [u8; 16];
 pub enum Error {
@@ -211,6 +211,81 @@ pub closed spec fn node_del_ok(ra: RoomAuthorisations, d: NodeDeletionEntry, row
         ensures
             // [node_deletion_kept_iff_entitled]{C02,C12}
             final(result)@ == (if node_del_ok(*self, entry.1.0, entry.1.1) { old(result)@.push(entry.1.0) } else { old(result)@ }),
+//@ end
+
+// ---- E14 shells: the loops around the two lifted bodies above, verified against the bodies' CONTRACTS (directive `shell`): what the
+// functions return is exactly the entitled records, in the order received (references) / every entitled one and nothing else (rows: the
+// batch is a HashMap consumed by value, rule E28)
+//@ include common/byvalue_iter.rs
+/// the records of `s` that are kept, in order
+pub open spec fn kept_edge_dels(ra: RoomAuthorisations, s: Seq<(EdgeDeletionEntry, Option<Vec<u8>>)>) -> Seq<EdgeDeletionEntry>
+    decreases s.len()
+{
+    if s.len() == 0 { Seq::empty() }
+    else if edge_del_ok(ra, s.last().0, s.last().1) { kept_edge_dels(ra, s.drop_last()).push(s.last().0) }
+    else { kept_edge_dels(ra, s.drop_last()) }
+}
+proof fn lemma_kept_edge_dels_step(ra: RoomAuthorisations, s: Seq<(EdgeDeletionEntry, Option<Vec<u8>>)>, i: int)
+    requires 0 <= i < s.len(),
+    ensures kept_edge_dels(ra, s.subrange(0, i + 1)) == (if edge_del_ok(ra, s[i].0, s[i].1) { kept_edge_dels(ra, s.subrange(0, i)).push(s[i].0) } else { kept_edge_dels(ra, s.subrange(0, i)) }),
+{
+    assert(s.subrange(0, i + 1).drop_last() =~= s.subrange(0, i));
+    assert(s.subrange(0, i + 1).last() == s[i]);
+}
+//@ extract src/database/authorisation_service.rs :: impl RoomAuthorisations / fn validate_edge_deletions
+//@ result r
+//@ shell "for entry in edges" => "proof { lemma_kept_edge_dels_step(*self, it.seq(), it.index@ as int); } self.validate_edge_deletions_body(entry, &mut result);"
+//@ loop "for entry in edges" iter it
+            invariant
+                it.seq() == edges@,
+                result@ == kept_edge_dels(*self, it.seq().subrange(0, it.index@ as int)),
+//@ insert before-stmt "result" #-1
+        proof { assert(edges@.subrange(0, edges@.len() as int) =~= edges@); }
+//@ spec
+        ensures
+            // [reference_deletions_returned_are_exactly_the_entitled_ones]{C02,C12} of a batch of reference-deletion records received from a peer, exactly those that pass the per-record rule are handed on, in the order received: none dropped, none added, none duplicated
+            r@ == kept_edge_dels(*self, edges@),
+//@ end
+
+/// a row-deletion record of the batch (keyed by row id) that passes the per-record rule
+pub open spec fn entitled_node_del(ra: RoomAuthorisations, nodes: Map<Uid, (NodeDeletionEntry, Option<Vec<u8>>)>, e: NodeDeletionEntry) -> bool {
+    exists|id: Uid| #![trigger nodes[id]] nodes.contains_key(id) && nodes[id].0 == e && node_del_ok(ra, e, nodes[id].1)
+}
+proof fn lemma_node_del_step(ra: RoomAuthorisations, nodes: Map<Uid, (NodeDeletionEntry, Option<Vec<u8>>)>, e: (Uid, (NodeDeletionEntry, Option<Vec<u8>>)), old_r: Seq<NodeDeletionEntry>, new_r: Seq<NodeDeletionEntry>)
+    requires
+        nodes.contains_key(e.0) && nodes[e.0] == e.1,
+        new_r == (if node_del_ok(ra, e.1.0, e.1.1) { old_r.push(e.1.0) } else { old_r }),
+        forall|x: NodeDeletionEntry| #[trigger] old_r.contains(x) ==> entitled_node_del(ra, nodes, x),
+    ensures
+        forall|x: NodeDeletionEntry| #[trigger] new_r.contains(x) ==> entitled_node_del(ra, nodes, x),
+        forall|x: NodeDeletionEntry| #[trigger] old_r.contains(x) ==> new_r.contains(x),
+        node_del_ok(ra, e.1.0, e.1.1) ==> new_r.contains(e.1.0),
+{
+    if node_del_ok(ra, e.1.0, e.1.1) {
+        assert(new_r[old_r.len() as int] == e.1.0);
+        assert(entitled_node_del(ra, nodes, e.1.0)) by { assert(nodes[e.0].0 == e.1.0); }
+        assert forall|x: NodeDeletionEntry| #[trigger] old_r.contains(x) implies new_r.contains(x) by {
+            let j = choose|j: int| 0 <= j < old_r.len() && old_r[j] == x; assert(new_r[j] == x);
+        }
+        assert forall|x: NodeDeletionEntry| #[trigger] new_r.contains(x) implies entitled_node_del(ra, nodes, x) by {
+            let j = choose|j: int| 0 <= j < new_r.len() && new_r[j] == x;
+            if j < old_r.len() { assert(old_r[j] == x); assert(old_r.contains(x)); }
+        }
+    }
+}
+//@ extract src/database/authorisation_service.rs :: impl RoomAuthorisations / fn validate_node_deletions
+//@ result r
+//@ attr #[verifier::loop_isolation(false)]
+//@ shell "for entry in nodes" => "let ghost e = entry; let ghost old_r = result@; self.validate_node_deletions_body(entry, &mut result); proof { lemma_node_del_step(*self, nodes0, e, old_r, result@); }"
+//@ rewrite E28 "for entry in nodes \{" => "for entry in it: map_into_iter(nodes) invariant map_entries_once(nodes0, it.seq()), forall|e: NodeDeletionEntry| #[trigger] result@.contains(e) ==> entitled_node_del(*self, nodes0, e), forall|i: int| 0 <= i < it.index@ && node_del_ok(*self, (#[trigger] it.seq()[i]).1.0, it.seq()[i].1.1) ==> result@.contains(it.seq()[i].1.0), {" x1
+//@ insert body-start
+        let ghost nodes0 = nodes@;
+//@ spec
+        ensures
+            // [row_deletions_returned_are_only_entitled_ones]{C02,C12} every row-deletion record handed on is a record of the batch that passes the per-record rule
+            forall|e: NodeDeletionEntry| #[trigger] r@.contains(e) ==> entitled_node_del(*self, nodes@, e),
+            // [every_entitled_row_deletion_is_returned]{C02,C12,C11} and every record of the batch that passes it is handed on: a valid deletion is never lost on the way
+            forall|id: Uid| #![trigger nodes@[id]] nodes@.contains_key(id) && node_del_ok(*self, nodes@[id].0, nodes@[id].1) ==> r@.contains(nodes@[id].0),
 //@ end
 
 //@ extract src/database/authorisation_service.rs :: impl RoomAuthorisations / fn rooms_for_peer
